@@ -11,6 +11,8 @@ R17.3 every "all of"/"any of" summary flag (a named bool given a constant before
 R17.4 wherever FIRST(Y) of a production symbol Y is read as Y's contribution to a set (FIRST of a sequence, FOLLOW of the
       symbol before it), nullable(Y) of the same Y is consulted and tested: whether what stands after Y contributes too
       depends on it
+R17.5 in rule_min_costs every "best so far" accumulator is replaced by a candidate only when the candidate is LOWER, in
+      rule_max_costs only when it is HIGHER (comparison direction normalised for operand order)
 """
 from mirlib import *
 
@@ -249,13 +251,12 @@ def r173(facts, res):
 FIRST_READS = {'firsts', 'is_set'}          # YaccFirsts::firsts(ridx) / is_set(ridx, tidx)
 
 
-def r174(facts, res):
+def r174(facts, res, R='R17.4', crates=('cfgrammar',), prefixes=('cfgrammar::yacc::firsts::', 'cfgrammar::yacc::follows::'), floor=2):
     """Wherever FIRST(Y) of a production symbol Y is read as that symbol's contribution to a set, nullable(Y) of the SAME Y
     is consulted and tested in the same function: whether the symbols after Y contribute too depends on it."""
-    R = 'R17.4'
     n = 0
-    for b in facts.lib_bodies(['cfgrammar']):
-        if b.from_expansion or not b.path.startswith(('cfgrammar::yacc::firsts::', 'cfgrammar::yacc::follows::')):
+    for b in facts.lib_bodies(list(crates)):
+        if b.from_expansion or not b.path.startswith(tuple(prefixes)):
             continue
         def sym_payload(op):
             """named local holding the rule index taken out of a `Symbol::Rule(..)` of a production, or None"""
@@ -298,10 +299,51 @@ def r174(facts, res):
                 res.bad(R, key, loc_of(b, bb), 'FIRST(%s) is merged as the contribution of symbol `%s`, but nullable(%s) is never consulted (nullable is tested only for %s): '
                         'when `%s` can derive the empty string, what stands after it in the production is ignored' % (
                             b.name_of(y), b.name_of(y), b.name_of(y), others or 'nothing', b.name_of(y)), {'function': b.path})
-    res.floor(R, 'reads of FIRST(symbol) in the FIRST/FOLLOW computations', n, 2)
+    res.floor(R, 'reads of FIRST(symbol) as a sequence contribution', n, floor)
+
+
+def r175(facts, res):
+    """rule_min_costs keeps the LOWER of candidate and best-so-far in every accumulator, rule_max_costs the HIGHER one"""
+    R = 'R17.5'
+    want = {'rule_min_costs': 'lower', 'rule_max_costs': 'higher'}
+    n = 0
+    for fname, w in want.items():
+        bs = [b for b in facts.lib_bodies(['cfgrammar']) if b.path == 'cfgrammar::yacc::grammar::' + fname]
+        if len(bs) != 1:
+            res.lost(R, '%s not found' % fname)
+            continue
+        b = bs[0]
+        accs = {l for l, ty in enumerate(b.locals) if ty['ty'].startswith('core::option::Option<u') and b.name_of(l)}
+        found = 0
+        for bb, t in b.calls():
+            c = callee_of(t)
+            if not c or c['name'] not in ('lt', 'gt', 'le', 'ge') or not (c.get('self_ty') or '').startswith('core::option::Option<u') or len(t['args']) != 2:
+                continue
+            r0 = b.op_root(t['args'][0], stop_named=True)[0]
+            r1 = b.op_root(t['args'][1], stop_named=True)[0]
+            a0, a1 = r0 in accs, r1 in accs
+            if a0 == a1:
+                continue        # accumulator against accumulator (the final decision) or neither: not an update test
+            lowerop = c['name'] in ('lt', 'le')
+            # candidate OP accumulator ; or accumulator OP candidate (reversed)
+            direction = ('lower' if lowerop else 'higher') if a1 else ('higher' if lowerop else 'lower')
+            acc = r1 if a1 else r0
+            found += 1
+            n += 1
+            key = '%s/%s' % (fname, b.name_of(acc))
+            if direction == w:
+                res.ok(R, key, loc_of(b, bb), 'the candidate replaces `%s` when it is %s' % (b.name_of(acc), w))
+            else:
+                res.bad(R, key, loc_of(b, bb), '%s keeps the %s of candidate and `%s` (comparison `%s`), but every accumulator of this function must keep the %s one: '
+                        'the cost reported for a rule is then not the %s over its productions' % (fname, direction, b.name_of(acc), c['name'], w, 'minimum' if w == 'lower' else 'maximum'),
+                        {'function': b.path})
+        if found < 2:
+            res.lost(R, 'expected two candidate-vs-accumulator comparisons in %s, found %d' % (fname, found))
+    res.floor(R, 'accumulator update tests in the cost functions', n, 4)
 
 
 def run(facts, res):
+    r175(facts, res)
     r171_172(facts, res)
     r173(facts, res)
     r174(facts, res)
